@@ -271,3 +271,90 @@ Proof.
     destruct Hk3 as [ -> | [ -> | -> ] ]; lra.
   - apply Qc_is_canon. reflexivity.
 Qed.
+
+(* ------------------------------------------------------------------------------------------ *)
+(** * segmented planes: per segment the piston is kept and the tilt is gone *)
+
+Section SegRefit.
+Variable S : Scalar.
+Hypothesis Sring : is_ring S.
+Add Ring Srs : Sring.
+Variables (dxr dxc : S) (opd : arr S).
+Let m := nr opd.
+Let n := nc opd.
+
+(* [mk] is the mask of one segment, recorded coefficients [t]; on every sample of the grid either the segment's
+   mask is 0, or it is 1 and no other segment covers the sample (disjoint 0/1 masks) *)
+Theorem fit_seg_refit (masks : list (arr S)) (ts : list (S * S * S)) l1 l2 mk (t : S * S * S) :
+  combine masks ts = l1 ++ (mk, t) :: l2 ->
+  (forall i j, (0 <= i < m)%Z -> (0 <= j < n)%Z ->
+     get mk i j = k0 \/ (get mk i j = k1 /\ forall mt, In mt (l1 ++ l2) -> get (fst mt) i j = k0)) ->
+  NE m n 3 (ptt_masked m n dxr dxc mk) (cof t) (get opd) ->
+  NE m n 3 (ptt_masked m n dxr dxc mk) (cof (fst (fst t), k0, k0)) (get (fit_seg dxr dxc masks opd ts)).
+Proof.
+  intros Hc Hd H k Hk. etransitivity; [|exact (H k Hk)]. apply (sum2_ext S); intros i j Hi Hj.
+  rewrite !(lin3 S Sring). cbn [fst snd].
+  destruct (Hd i j Hi Hj) as [E|[E Hz]].
+  - unfold ptt_masked. rewrite E. ring.
+  - pose proof (fit_seg_on_mask S Sring dxr dxc opd masks ts l1 l2 mk t i j Hc E Hz) as Hon.
+    fold m n in Hon.
+    assert (Hnew : get (fit_seg dxr dxc masks opd ts) i j
+                   = (get opd i j - ramp_s (snd (fst t)) (snd t) dxr dxc (i - m / 2) (j - n / 2))%K).
+    { rewrite <- Hon. ring. }
+    rewrite Hnew. unfold ptt_masked, ptt_unmasked, ramp_s. cbn [Z.eqb Pos.eqb]. rewrite E. ring.
+Qed.
+End SegRefit.
+
+(* over the reals: if the segment's masked basis is independent, the least-squares coefficients of the NEW
+   (whole-plane) OPD on that segment are (t0, 0, 0) - piston kept, tip and tilt removed, segment by segment *)
+Theorem fit_seg_lsq (dxr dxc : R) (opd : arr RS) (masks : list (arr RS)) (ts : list (R * R * R)) l1 l2 mk (t : R * R * R) :
+  let m := nr opd in let n := nc opd in
+  let b := ptt_masked (S := RS) m n dxr dxc mk in
+  combine masks ts = l1 ++ (mk, t) :: l2 ->
+  (forall i j, (0 <= i < m)%Z -> (0 <= j < n)%Z ->
+     get mk i j = 0 \/ (get mk i j = 1 /\ forall mt, In mt (l1 ++ l2) -> get (fst mt) i j = 0)) ->
+  indep m n 3 b ->
+  NE m n 3 b (cof t) (get opd) ->
+  (forall t', NE m n 3 b (cof t') (get opd) -> t' = t)
+  /\ (forall t', NE m n 3 b (cof t') (get (fit_seg (S := RS) dxr dxc masks opd ts)) -> t' = (fst (fst t), 0, 0))
+  /\ (forall i j, (0 <= i < m)%Z -> (0 <= j < n)%Z -> get mk i j = 1 ->
+        get (fit_seg (S := RS) dxr dxc masks opd ts) i j
+        + ramp_s (S := RS) (snd (fst t)) (snd t) dxr dxc (i - m / 2) (j - n / 2) = get opd i j).
+Proof.
+  intros m n b Hc Hd Hi Hne.
+  assert (triple : forall (u v : R * R * R), (forall k, (0 <= k < 3)%Z -> cof u k = cof v k) -> u = v).
+  { intros [[u0 u1] u2] [[v0 v1] v2] H. pose proof (H 0%Z ltac:(lia)) as E0. pose proof (H 1%Z ltac:(lia)) as E1.
+    pose proof (H 2%Z ltac:(lia)) as E2. cbn in E0, E1, E2. congruence. }
+  repeat split.
+  - intros t' H'. apply triple. intros k Hk. now apply (lsq_unique m n 3 b (cof t') (cof t) (get opd)).
+  - intros t' H'. apply triple. intros k Hk.
+    apply (lsq_unique m n 3 b (cof t') (cof (fst (fst t), 0, 0)) (get (fit_seg (S := RS) dxr dxc masks opd ts))); try assumption.
+    exact (fit_seg_refit RS RS_ring dxr dxc opd masks ts l1 l2 mk t Hc Hd Hne).
+  - intros i j Hi' Hj' E. destruct (Hd i j Hi' Hj') as [E0|[_ Hz]]; [rs; lra|].
+    exact (fit_seg_on_mask RS RS_ring dxr dxc opd masks ts l1 l2 mk t i j Hc E Hz).
+Qed.
+
+Definition ex_maskA : arr RS := mkArr (S := RS) 2 4 (fun _ j => if (j <? 2)%Z then 1 else 0).
+Definition ex_maskB : arr RS := mkArr (S := RS) 2 4 (fun _ j => if (j <? 2)%Z then 0 else 1).
+Lemma ex_seg_hypotheses (tA tB : R * R * R) :
+  indep 2 4 3 (ptt_masked (S := RS) 2 4 1 1 ex_maskA)
+  /\ (forall i j, (0 <= i < 2)%Z -> (0 <= j < 4)%Z ->
+        get ex_maskA i j = 0 \/ (get ex_maskA i j = 1 /\ forall mt, In mt ([] ++ [(ex_maskB, tB)]) -> get (fst mt) i j = 0))
+  /\ combine [ex_maskA; ex_maskB] [tA; tB] = [] ++ (ex_maskA, tA) :: [(ex_maskB, tB)].
+Proof.
+  split; [|split; [|reflexivity]].
+  - intros d H k Hk.
+    pose proof (H 1%Z 1%Z ltac:(lia) ltac:(lia)) as H11.
+    pose proof (H 0%Z 1%Z ltac:(lia) ltac:(lia)) as H01.
+    pose proof (H 1%Z 0%Z ltac:(lia) ltac:(lia)) as H10.
+    unfold lin in H11, H01, H10. rewrite (sumZ_3 RS RS_ring) in H11, H01, H10.
+    unfold ptt_masked, ptt_unmasked, ex_maskA in H11, H01, H10. cbn [get Z.eqb Pos.eqb Z.ltb Z.compare Pos.compare Pos.compare_cont] in H11, H01, H10.
+    change (2 / 2)%Z with 1%Z in *. change (4 / 2)%Z with 2%Z in *.
+    change (1 - 1)%Z with 0%Z in *. change (0 - 1)%Z with (-1)%Z in *. change (1 - 2)%Z with (-1)%Z in *. change (0 - 2)%Z with (-2)%Z in *.
+    rewrite ?zs_RS in H11. rewrite ?zs_RS in H01. rewrite ?zs_RS in H10. rs.
+    assert (Hk3 : (k = 0 \/ k = 1 \/ k = 2)%Z) by lia.
+    destruct Hk3 as [ -> | [ -> | -> ] ]; lra.
+  - intros i j Hi Hj. unfold ex_maskA, ex_maskB. cbn [get]. destruct (j <? 2)%Z eqn:E.
+    + right. split; [reflexivity|]. intros mt [<-|[]]. cbn [fst get]. now rewrite E.
+    + now left.
+Qed.
